@@ -271,6 +271,11 @@ Proof.
   - (* Finish *) destruct (find_task s k) as [[i kd p]|] eqn:Ft; [|auto]. destruct (task_not_stopped s k _ G Ft) as (NS & Kn).
     destruct kd, p; cbn [fst snd]; (split; [|congruence]); auto.
     apply GI_finish; [destruct (sstate s); auto using GI_with_state|destruct (sstate s); try rewrite next_with_state; exact Kn].
+  - (* Fail *) destruct (find_task s k) as [[i kd p]|] eqn:Ft; [|auto]. destruct (task_not_stopped s k _ G Ft) as (NS & Kn).
+    destruct kd, p; cbn [fst snd]; try (split; [auto|congruence]).
+    destruct (sstate s); cbn [fst snd]; auto using GI_with_state.
+  - (* End_ *) destruct (find_task s k) as [[i kd p]|] eqn:Ft; [|auto]. destruct (task_not_stopped s k _ G Ft) as (NS & Kn).
+    destruct kd, p; cbn [fst snd]; (split; [|congruence]); auto. apply GI_finish; auto.
   - (* DoneCb *) destruct (find (fun c => fst c =? k) (cbs s)) as [[k' kd]|] eqn:Fc; [|auto].
     apply find_some in Fc. destruct Fc as (Hin & Ek). cbn in Ek. apply Nat.eqb_eq in Ek. subst k'.
     destruct (GI_donecb s k kd G Hin) as (Ga & Gb). cbn zeta in Ga, Gb. rewrite G4.
@@ -504,6 +509,9 @@ Proof.
     destruct (sstate s); destruct s; reflexivity.
   - destruct (find_task s k) as [[i kd p]|]; [|reflexivity]. destruct kd, p; try reflexivity.
     destruct (sstate s); destruct s; reflexivity.
+  - destruct (find_task s k) as [[i kd p]|]; [|reflexivity]. destruct kd, p; try reflexivity.
+    destruct (sstate s); destruct s; reflexivity.
+  - destruct (find_task s k) as [[i kd p]|]; [|reflexivity]. destruct kd, p; try reflexivity; try (destruct s; reflexivity).
   - destruct (find (fun c => fst c =? k) (cbs s)) as [[k' kd]|]; [|reflexivity].
     destruct (cb_cond f); [destruct (get_slot kd _) as [j|]; [destruct (j =? k)|]|]; destruct s, kd; reflexivity.
   - destruct (sremoved s) eqn:R; [cbn; auto|]. cbn [fst]. rewrite sremoved_do_stop. exact R.
